@@ -220,7 +220,17 @@ def check(tree, rep, tier='quick', seed=0):
                 rep.samples.append({'year': y, 'status': mname, 'pieces': len(code),
                                     'example': [repr(code[0][0]), repr(code[0][1]), repr(code[-1][0]), repr(code[-1][1])]})
             # ---- D3 on the computed function itself
-            defined = [(iv, f) for iv, f, w in code if f is not None]
+            defined = []
+            for iv, f, w in code:
+                if f is None:
+                    continue
+                # the properties below are properties of the function, not of how the code happens to cut its domain:
+                # adjacent pieces with the same formula are one piece
+                if defined and defined[-1][1].same(f) and defined[-1][0].hi == iv.lo and not (defined[-1][0].hi_open and iv.lo_open):
+                    last = defined[-1][0]
+                    defined[-1] = (Interval(last.lo, iv.hi, last.lo_open, iv.hi_open), f)
+                else:
+                    defined.append((iv, f))
             mono_ok = True
             step_ok = True
             top = Fraction(sched['rates'][-1])
